@@ -84,21 +84,21 @@ PROPS = {
         explanation='Verus (unbounded): Runner::run_map keeps exactly one vector per worker; in the three collect_x kernel tasks the worker vector keeps what it collected and its length is the sum of the survivors of the chunks it pulled (RW25/RW26). Kani (bounded): each collect_x kernel task returns the multiset of survivors of its blocks; glue with the real SplitVec::append and collect_x through the API are multiset-equal to the std chain. ' + MC_TEXT,
     ),
     'C08': dict(
-        level='proof', verus_units=['core'],
+        level='proof', verus_units=['core', 'dispatch', 'into'],
         kani=True,
         kani_select=dict(quick=r'^k_pair_|^k_lazy_|^k_order_|^k_api_seq_(empty_collect_vec|fil_collect_vec|map_fil_count|map_fil_reduce|map_fil_find|fil_first|map_any|fil_for_each|empty_count)',
                          thorough=r'^k_pair_|^k_lazy_|^k_order_|^k_api_seq_'),
         trusted_base=[T1, T5, T7, AHW, A64, ARITH, STUBS, MODEL],
         assumptions=['workers of one run are the only threads executing closures during it and are joined before the run returns (T5)', TASK_BOUND + ' (only for the Max(1) clause: data bounded, parameters fully symbolic)'],
-        explanation='Verus (unbounded): calc_num_threads(len, Max(n)) <= n; Runner::new gives 1 <= max_num_threads <= n; every run/run_map/reduce spawns between 1 and max_num_threads workers for every sequence of has_more() answers; is_sequential() <=> Max(1). Kani: with num_threads(1) and a fully symbolic chunk_size no terminal reaches the Runner (its three entry points are replaced by assert!(false)) and nothing is pulled through the concurrent interface.',
+        explanation='Verus (unbounded): calc_num_threads(len, Max(n)) <= n; Runner::new gives 1 <= max_num_threads <= n; every run/run_map/reduce spawns between 1 and max_num_threads workers for every sequence of has_more() answers; is_sequential() <=> Max(1); the nine kernel entry points of src/core and the six filtering collect_into methods of Vec / SplitVec enter the parallel kernel (the only code that reaches the Runner) only when !is_sequential() (units dispatch, into). Kani: with num_threads(1) and a fully symbolic chunk_size no terminal reaches the Runner (its three entry points are replaced by assert!(false)) and nothing is pulled through the concurrent interface.',
     ),
     'C09': dict(
-        level='model_checking', verus_units=['core'],
+        level='model_checking', verus_units=['core', 'dispatch', 'into'],
         kani=True,
         kani_select=dict(quick=r'^k_lazy_|^k_order_|^k_api_seq_', thorough=r'^k_lazy_|^k_order_|^k_api_seq_'),
         trusted_base=[T7, STUBS, MODEL],
         assumptions=[TASK_BOUND + '; chunk_size fully symbolic (Auto / Exact(c) / Min(c), any c)'],
-        explanation='Verus (unbounded): is_sequential() <=> num_threads == Max(1). Kani (bounded in data, complete in parameters): for every terminal and iterator type with num_threads(1) the value equals the std chain and the SEQUENCE of (stage, position) closure calls is identical to the std chain (so reduce/fold are left-to-right); nothing reaches the Runner. ' + MC_TEXT,
+        explanation='Verus (unbounded): is_sequential() <=> num_threads == Max(1); 15 dispatch functions take the sequential (plain iterator) path exactly when is_sequential(). Kani (bounded in data, complete in parameters): for every terminal and iterator type with num_threads(1) the value equals the std chain and the SEQUENCE of (stage, position) closure calls is identical to the std chain (so reduce/fold are left-to-right); nothing reaches the Runner. ' + MC_TEXT,
     ),
     'C10': dict(
         level='other', verus_units=['core'],
